@@ -15,7 +15,8 @@ CfgDyn   == {x \in ConfigsQuick : x.name \in DynNames}
 CfgAll   == ConfigsQuick \cup ConfigsSingles \cup ConfigsPairs
 
 \* MaxPerm folds "many" keys onto the same walks as 2 or 3 keys: the quick run leaves the Many-level deviations out
-ProgsW1Low == {q \in ProgsW1 : \A f \in {"ann", "ns", "mapConst", "mapDefault", "inc", "defs"} : q[f] # Many}
+ProgsW1Low == {q \in ProgsW1 : /\ \A f \in {"ann", "ns", "mapConst", "mapDefault", "inc", "defs", "exc"} : q[f] # Many
+                                /\ q.wide = 0 /\ q.evals = 0 /\ q.funcs = 0 /\ q.req # 20}
 
 \* the two configurations that reach every site the pinned commit leaked at (quick self-test of layer P)
 CfgP2    == {x \in ConfigsQuick : x.name \in {"go+reflection/patch", "fastgo+no_fmt"}}
